@@ -114,8 +114,10 @@ def minimise_chain(ctx, binp, case_type, judge, canary, j, want_code, rounds=6):
 
 
 def write_corpus_hit(pid, j):
-    """remember a minimised disagreement for later runs (corpus/Cxx/*.json, replay-mode input)"""
-    d = os.path.join(vlib.VERIF, "corpus", pid)
+    """remember a minimised disagreement for later runs (corpus/Cxx/*.json, replay-mode input).
+    Only runs against /repo itself may add to the committed corpus; experiment runs (VERIF_REPO) write
+    to their own output directory."""
+    d = os.path.join(vlib.VERIF if vlib.OUT == vlib.VERIF else vlib.OUT, "corpus", pid)
     os.makedirs(d, exist_ok=True)
     body = json.dumps(j, sort_keys=True)
     import hashlib
